@@ -26,7 +26,7 @@ CLASSES = {
     "AFrozen": P.AFrozen, "PModel": P.PModel, "NT": P.NT, "TNT": P.TNT,
     "Outer.Cfg": P.Outer.Cfg, "Opaque": P.Opaque, "Vec": P.Vec, "APriv": P.APriv, "PAlias": P.PAlias,
     "Hidden": P.Hidden, "AHidden": P.AHidden, "PHidden": P.PHidden, "PExtra": P.PExtra, "IVar": P.IVar,
-    "SubPoint": P.SubPoint, "Point3": P.Point3,
+    "SubPoint": P.SubPoint, "Point3": P.Point3, "HFirst": P.HFirst,
     "int": int, "str": str, "list": list, "dict": dict, "set": set, "float": float,
     "bytes": bytes, "tuple": tuple, "bool": bool, "frozenset": frozenset,
     "defaultdict": P.defaultdict,
@@ -37,16 +37,16 @@ CALL_FIELDS = {
     "APoint": ["a", "b", "c"], "AFrozen": ["k", "v"], "PModel": ["n", "tags", "opt"],
     "NT": ["a", "b"], "TNT": ["p", "q"], "Outer.Cfg": ["n"], "APriv": ["x", "y"], "PAlias": ["n", "other"],
     "Hidden": ["a", "b"], "AHidden": ["a", "b"], "PHidden": ["a", "b"], "PExtra": ["a", "zz"],
-    "SubPoint": ["x", "y"], "Point3": ["x", "y", "z"],
+    "SubPoint": ["x", "y"], "Point3": ["x", "y", "z"], "HFirst": ["name", "n"],
 }
 REQUIRED = {
     "Point": ["x"], "FPoint": ["x"], "Box": [], "APoint": ["a"], "AFrozen": ["k"],
     "PModel": ["n"], "NT": ["a"], "TNT": ["p"], "Outer.Cfg": [], "APriv": ["x"], "PAlias": ["n"],
-    "Hidden": ["a"], "AHidden": ["a"], "PHidden": ["a"], "PExtra": ["a"], "SubPoint": ["x"], "Point3": ["x"],
+    "Hidden": ["a"], "AHidden": ["a"], "PHidden": ["a"], "PExtra": ["a"], "SubPoint": ["x"], "Point3": ["x"], "HFirst": [],
 }
 HASHABLE_CALLS = ["FPoint", "AFrozen", "NT", "TNT"]
 UNHASHABLE_CALLS = ["Point", "Box", "APoint", "PModel", "Outer.Cfg", "APriv", "PAlias", "Hidden", "AHidden", "PHidden",
-                    "PExtra", "SubPoint", "Point3"]
+                    "PExtra", "SubPoint", "Point3", "HFirst"]
 
 
 def build(d):
@@ -87,6 +87,8 @@ def build(d):
         return P.defaultdict(CLASSES[d[1]], {build(a): build(b) for a, b in d[2]})
     if k == "mylist":
         return P.MyList(build(x) for x in d[1])
+    if k in ("myset", "myfrozen"):
+        return (P.MySet if k == "myset" else P.MyFrozen)(build(x) for x in d[1])
     if k == "raw":
         return eval(d[1], dict(vars(P)))
     if k == "opaque":
@@ -146,6 +148,8 @@ def render(d) -> str:
         return d[1]
     if k == "mylist":
         return "MyList([" + ", ".join(render(x) for x in d[1]) + "])"
+    if k in ("myset", "myfrozen"):
+        return ("MySet" if k == "myset" else "MyFrozen") + "([" + ", ".join(render(x) for x in d[1]) + "])"
     if k == "opaque":
         return f"Opaque({d[1]!r})"
     if k == "vec":
@@ -199,6 +203,8 @@ def natural(d) -> str:
         return d[1]
     if k == "mylist":
         return "MyList([" + ", ".join(natural(x) for x in d[1]) + "])"
+    if k in ("myset", "myfrozen"):
+        return ("MySet" if k == "myset" else "MyFrozen") + "([" + ", ".join(natural(x) for x in d[1]) + "])"
     if k == "opaque":
         return f"Opaque({d[1]!r})"
     if k == "vec":
@@ -214,7 +220,7 @@ def natural(d) -> str:
 def walk(d):
     yield d
     k = d[0]
-    if k in ("list", "tuple", "set", "frozenset", "vec", "mylist"):
+    if k in ("list", "tuple", "set", "frozenset", "vec", "mylist", "myset", "myfrozen"):
         for x in d[1]:
             yield from walk(x)
     elif k == "dict":
@@ -236,7 +242,7 @@ def walk(d):
 def depth(d):
     k = d[0]
     subs = []
-    if k in ("list", "tuple", "set", "frozenset", "vec", "mylist"):
+    if k in ("list", "tuple", "set", "frozenset", "vec", "mylist", "myset", "myfrozen"):
         subs = d[1]
     elif k == "dict":
         subs = [x for ab in d[1] for x in ab]
